@@ -270,15 +270,23 @@ type goResult struct {
 	problem string // result of the Go-side structural comparison ("" = fine)
 }
 
-var rePos = regexp.MustCompile(`^t\.yang:(\d+):(\d+): (.*)$`)
+var rePos = regexp.MustCompile(`^(\d+):(\d+): (.*)$`)
 
-func classify(err error) string {
+// classify maps an error of Modules.Parse to class + position; name is the source name the text was
+// handed over under (positions are printed as `<name>:line:col`, or `line <line>:<col>` for the empty name).
+func classify(err error, name string) string {
 	msg := err.Error()
 	pos := "- -"
 	rest := msg
-	if m := rePos.FindStringSubmatch(msg); m != nil && !strings.Contains(msg, "\n") {
-		pos = m[1] + " " + m[2]
-		rest = m[3]
+	pre := name + ":"
+	if name == "" {
+		pre = "line "
+	}
+	if strings.HasPrefix(msg, pre) && !strings.Contains(msg, "\n") {
+		if m := rePos.FindStringSubmatch(msg[len(pre):]); m != nil {
+			pos = m[1] + " " + m[2]
+			rest = m[3]
+		}
 	}
 	cls := "other"
 	switch {
@@ -304,6 +312,9 @@ func classify(err error) string {
 
 func stmtPos(s *yang.Statement) (int, int) {
 	f := strings.Split(s.Location(), ":")
+	if len(f) == 2 && strings.HasPrefix(f[0], "line ") { // empty source name
+		f = []string{"", f[0][len("line "):], f[1]}
+	}
 	if len(f) < 3 {
 		return 0, 0
 	}
@@ -321,6 +332,15 @@ func srcRef(s *yang.Statement) string {
 	}
 	l, c := stmtPos(s)
 	return fmt.Sprintf("%d:%d:%s", l, c, lib.HexS(s.Keyword))
+}
+
+// hRef: a statement reference for messages.
+func hRef(s *yang.Statement) string {
+	if s == nil {
+		return "<no statement>"
+	}
+	l, c := stmtPos(s)
+	return fmt.Sprintf("`%s` at %d:%d", s.Keyword, l, c)
 }
 
 func extRef(s *yang.Statement) string {
@@ -424,9 +444,9 @@ func oracle(v reflect.Value, stmt *yang.Statement, parent yang.Node, probs *[]st
 		}
 	}
 	n := v.Interface().(yang.Node)
-	where := srcRef(stmt)
+	where := hRef(stmt)
 	if n.Statement() != stmt {
-		add("%s: node's Statement() is %s", where, srcRef(n.Statement()))
+		add("%s: node's Statement() is %s", where, hRef(n.Statement()))
 	}
 	if n.NName() != stmt.Argument {
 		add("%s: name %q, argument %q", where, n.NName(), stmt.Argument)
@@ -450,7 +470,7 @@ func oracle(v reflect.Value, stmt *yang.Statement, parent yang.Node, probs *[]st
 			kids := childrenOf(v, f.idx)
 			k := next[f.idx]
 			if k >= len(kids) {
-				add("%s: substatement %s has no node under field %s", where, srcRef(ss), f.tag)
+				add("%s: substatement %s has no node under field %s", where, hRef(ss), f.tag)
 				continue
 			}
 			next[f.idx]++
@@ -459,12 +479,12 @@ func oracle(v reflect.Value, stmt *yang.Statement, parent yang.Node, probs *[]st
 		}
 		if strings.Count(ss.Keyword, ":") == 1 {
 			if nextExt >= len(exts) || exts[nextExt] != ss {
-				add("%s: prefixed substatement %s is not the next extension", where, srcRef(ss))
+				add("%s: prefixed substatement %s is not the next extension", where, hRef(ss))
 			}
 			nextExt++
 			continue
 		}
-		add("%s: substatement %s with a keyword unknown under %s was accepted", where, srcRef(ss), stmt.Keyword)
+		add("%s: substatement %s with a keyword unknown under %s was accepted", where, hRef(ss), stmt.Keyword)
 	}
 	for _, f := range ti.fields {
 		kids := childrenOf(v, f.idx)
@@ -497,7 +517,157 @@ func oracle(v reflect.Value, stmt *yang.Statement, parent yang.Node, probs *[]st
 	}
 }
 
-func runGo(text string) (res goResult) {
+// ---------- the circumstances of the call that must not influence the AST
+
+// hstep is one earlier call on the Modules value the text under test is parsed into.
+type hstep struct {
+	op     string // "parse" | "process"
+	text   string
+	name   string // source name; "=" = the name the text under test will be given
+	accept bool   // parse: false = the text must be rejected
+}
+
+// earlier texts: their module names (zz-prior-*) occur in no generated or corpus text under test (what
+// Modules.add does with colliding names is C13's subject); each of them is a corpus text as well
+const (
+	priorA = `module zz-prior-1 { namespace "urn:zz1"; prefix zz1; typedef t { type string; } grouping g { leaf gl { type t; } } container c { uses g; leaf a { type string; } } deviation /c/a { deviate not-supported; } }`
+	priorB = `module zz-prior-2 { namespace "urn:zz2"; prefix zz2; import zz-prior-1 { prefix p1; } augment /p1:c { leaf b { type string; } } revision 2001-01-01; }`
+	priorC = `submodule zz-prior-3 { belongs-to zz-prior-1 { prefix zz1; } leaf s { type string; } }`
+	priorR = `module zz-prior-4 { namespace "urn:zz4"; prefix zz4; leaf l; }`
+	priorL = `module zz-prior-5 { namespace "urn:zz5"; prefix zz5; leaf l { type string; }`
+	priorT = `leaf zz-prior-6 { type string; }`
+)
+
+var histories = [][]hstep{
+	0: nil,
+	1: {{"parse", priorA, "other-1.yang", true}},
+	2: {{"parse", priorA, "=", true}},
+	3: {{"parse", priorR, "=", false}},
+	4: {{"parse", priorL, "=", false}},
+	5: {{"parse", priorA, "other-1.yang", true}, {"parse", priorR, "=", false}, {"parse", priorB, "=", true}, {"parse", priorC, "other-2.yang", true}, {"parse", priorT, "other-1.yang", false}},
+	6: {{"parse", priorA, "=", true}, {"process", "", "", true}},
+	7: {{"parse", priorA, "other-1.yang", true}, {"parse", priorB, "=", true}, {"process", "", "", true}, {"parse", priorR, "=", false}},
+	8: {{"process", "", "", true}},
+	9: {{"parse", priorT, "=", false}, {"parse", priorC, "=", true}, {"parse", priorL, "other-1.yang", false}},
+}
+
+var srcNames = []string{"t.yang", "zz-prior-1.yang", ""}
+
+// pctx: everything around the call Modules.Parse(text, Name) that must not influence the AST.
+type pctx struct {
+	Opts int    `json:"opts"` // bit 0 IgnoreSubmoduleCircularDependencies, bit 1 StoreUses, bit 2 DeviateOptions.IgnoreDeviateNotSupported: set before any call
+	Name string `json:"name"` // source name of the text under test
+	Hist int    `json:"hist"` // index into histories: the earlier calls on the same Modules value
+}
+
+var defaultCtx = pctx{Name: "t.yang"}
+
+func (c pctx) describe() string {
+	var sb strings.Builder
+	sb.WriteString("ms := NewModules()")
+	for i, n := range []string{"IgnoreSubmoduleCircularDependencies", "StoreUses", "DeviateOptions.IgnoreDeviateNotSupported"} {
+		if c.Opts&(1<<i) != 0 {
+			sb.WriteString("; ms.ParseOptions." + n + " = true")
+		}
+	}
+	if c.Hist >= 0 && c.Hist < len(histories) {
+		for _, h := range histories[c.Hist] {
+			if h.op == "process" {
+				sb.WriteString("; ms.Process()")
+				continue
+			}
+			name := h.name
+			if name == "=" {
+				name = c.Name
+			}
+			verdict := "accepted"
+			if !h.accept {
+				verdict = "rejected"
+			}
+			fmt.Fprintf(&sb, "; ms.Parse(%q, %q) /* %s */", h.text, name, verdict)
+		}
+	}
+	fmt.Fprintf(&sb, "; ms.Parse(<text>, %q)", c.Name)
+	return sb.String()
+}
+
+// brief: the context in a few words (the full call sequence is in the disagreement's input).
+func (c pctx) brief() string {
+	var parts []string
+	for i, n := range []string{"IgnoreSubmoduleCircularDependencies", "StoreUses", "IgnoreDeviateNotSupported"} {
+		if c.Opts&(1<<i) != 0 {
+			parts = append(parts, n)
+		}
+	}
+	o := "default options"
+	if len(parts) > 0 {
+		o = "options " + strings.Join(parts, "+") + " set"
+	}
+	var hs []string
+	for _, h := range histories[c.Hist] {
+		switch {
+		case h.op == "process":
+			hs = append(hs, "Process")
+		case h.name == "=":
+			hs = append(hs, map[bool]string{true: "Parse(accepted text, same name)", false: "Parse(rejected text, same name)"}[h.accept])
+		default:
+			hs = append(hs, map[bool]string{true: "Parse(accepted text, other name)", false: "Parse(rejected text, other name)"}[h.accept])
+		}
+	}
+	e := "fresh set"
+	if len(hs) > 0 {
+		e = "earlier calls on the set: " + strings.Join(hs, ", ")
+	}
+	return fmt.Sprintf("%s; %s; source name %q", o, e, c.Name)
+}
+
+// allCtxs: every combination of options x history x the first two source names.
+func allCtxs() []pctx {
+	cs := []pctx{defaultCtx}
+	for _, name := range srcNames[:2] {
+		for h := range histories {
+			for o := 0; o < 8; o++ {
+				c := pctx{Opts: o, Name: name, Hist: h}
+				if c != defaultCtx {
+					cs = append(cs, c)
+				}
+			}
+		}
+	}
+	return cs
+}
+
+// someCtxs: the plain call plus k contexts drawn by r.
+func someCtxs(r *rand.Rand, k int) []pctx {
+	cs := []pctx{defaultCtx}
+	for i := 0; i < k; i++ {
+		cs = append(cs, pctx{Opts: r.Intn(8), Name: srcNames[r.Intn(len(srcNames))], Hist: r.Intn(len(histories))})
+	}
+	return cs
+}
+
+// sameStmt: two statement trees agree in keyword, argument, position, recursively.
+func sameStmt(a, b *yang.Statement) bool {
+	if a == nil || b == nil {
+		return a == b
+	}
+	al, ac := stmtPos(a)
+	bl, bc := stmtPos(b)
+	if a.Keyword != b.Keyword || a.HasArgument != b.HasArgument || a.Argument != b.Argument || al != bl || ac != bc ||
+		len(a.SubStatements()) != len(b.SubStatements()) {
+		return false
+	}
+	for i, c := range a.SubStatements() {
+		if !sameStmt(c, b.SubStatements()[i]) {
+			return false
+		}
+	}
+	return true
+}
+
+// runGo hands text to Modules.Parse in the circumstances ctx describes and reads back what the set holds
+// for it afterwards; ss is the runner's own parse of the text (for the statement -> module direction).
+func runGo(text string, ctx pctx, ss []*yang.Statement) (res goResult) {
 	defer func() {
 		if r := recover(); r != nil {
 			st := strings.Split(string(debug.Stack()), "\n")
@@ -512,8 +682,35 @@ func runGo(text string) (res goResult) {
 		}
 	}()
 	ms := yang.NewModules()
-	if err := ms.Parse(text, "t.yang"); err != nil {
-		return goResult{out: classify(err)}
+	ms.ParseOptions.IgnoreSubmoduleCircularDependencies = ctx.Opts&1 != 0
+	ms.ParseOptions.StoreUses = ctx.Opts&2 != 0
+	ms.ParseOptions.DeviateOptions.IgnoreDeviateNotSupported = ctx.Opts&4 != 0
+	var probs []string
+	if ctx.Hist < 0 || ctx.Hist >= len(histories) {
+		lib.Fatal("unknown history %d", ctx.Hist)
+	}
+	for i, h := range histories[ctx.Hist] {
+		if h.op == "process" {
+			ms.Process()
+			continue
+		}
+		name := h.name
+		if name == "=" {
+			name = ctx.Name
+		}
+		if err := ms.Parse(h.text, name); err == nil && !h.accept {
+			probs = append(probs, fmt.Sprintf("earlier call %d: Parse(%q, %q) must fail and returned nil", i, h.text, name))
+		}
+	}
+	before := map[*yang.Module]bool{}
+	for _, m := range ms.Modules {
+		before[m] = true
+	}
+	for _, m := range ms.SubModules {
+		before[m] = true
+	}
+	if err := ms.Parse(text, ctx.Name); err != nil {
+		return goResult{out: classify(err, ctx.Name), problem: strings.Join(probs, "; ")}
 	}
 	type top struct {
 		m     *yang.Module
@@ -528,10 +725,13 @@ func runGo(text string) (res goResult) {
 			mm = ms.SubModules
 		}
 		for k, m := range mm {
+			if before[m] {
+				continue // held by the set before this call
+			}
 			t := seen[m]
 			if t == nil {
 				l, c := 0, 0
-				if m.Source != nil {
+				if m != nil && m.Source != nil {
 					l, c = stmtPos(m.Source)
 				}
 				t = &top{m: m, sub: sub, l: l, c: c}
@@ -557,12 +757,15 @@ func runGo(text string) (res goResult) {
 	})
 	var sb strings.Builder
 	sb.WriteString("ok")
-	var probs []string
 	for _, t := range tops {
 		if t.sub {
 			sb.WriteString(" S ")
 		} else {
 			sb.WriteString(" M ")
+		}
+		if t.m == nil {
+			probs = append(probs, "nil entry in the module map")
+			continue
 		}
 		dumpNode(&sb, reflect.ValueOf(t.m))
 		if t.m.Source == nil {
@@ -571,7 +774,29 @@ func runGo(text string) (res goResult) {
 		}
 		oracle(reflect.ValueOf(t.m), t.m.Source, nil, &probs)
 		if (t.m.Source.Keyword == "submodule") != t.sub || t.m.Source.Keyword != "module" && t.m.Source.Keyword != "submodule" {
-			probs = append(probs, fmt.Sprintf("top-level %s landed in the wrong module map", srcRef(t.m.Source)))
+			probs = append(probs, fmt.Sprintf("top-level %s landed in the wrong module map", hRef(t.m.Source)))
+		}
+		filed := false
+		for _, k := range t.names {
+			if k == t.m.FullName() {
+				filed = true
+			}
+		}
+		if !filed {
+			probs = append(probs, fmt.Sprintf("top-level %s is not filed under its full name %q (keys %q)", hRef(t.m.Source), t.m.FullName(), t.names))
+		}
+	}
+	// from statement to node: every top-level statement of the text has its module in the set, built
+	// from a statement tree equal to the runner's own parse of the text
+	if ss != nil {
+		if len(tops) != len(ss) {
+			probs = append(probs, fmt.Sprintf("Parse returned nil: %d top-level statements, %d modules added to the set by this call", len(ss), len(tops)))
+		} else {
+			for i, t := range tops {
+				if t.m != nil && !sameStmt(t.m.Source, ss[i]) {
+					probs = append(probs, fmt.Sprintf("the module for top-level statement %s was built from another statement tree", hRef(ss[i])))
+				}
+			}
 		}
 	}
 	res.out = sb.String()
@@ -583,17 +808,26 @@ func runGo(text string) (res goResult) {
 
 // ---------- cases
 
+type altRes struct {
+	ctx pctx
+	g   goResult
+}
+
 type tcase struct {
 	Origin string `json:"origin"`
 	Text   string `json:"text"`
 	wire   string
 	nstmt  int
 	srcPos map[string]bool
-	g      goResult
+	ctx    pctx
+	g      goResult // result of the first context (the plain call unless replaying)
+	alts   []altRes // the contexts whose result differs from g (none on a correct implementation)
+	nctx   int
 }
 
-// prepare parses the text with the real generic parser and runs the real builder.
-func prepare(origin, text string) (*tcase, error) {
+// prepare parses the text with the real generic parser and runs the real builder in every context of
+// ctxs (nil = the plain call only).
+func prepare(origin, text string, ctxs []pctx) (*tcase, error) {
 	ss, err := yang.Parse(text, "t.yang")
 	if err != nil {
 		return nil, err
@@ -611,19 +845,14 @@ func prepare(origin, text string) (*tcase, error) {
 		lib.WireStmt(&sb, s)
 		cnt(s)
 	}
-	c := &tcase{Origin: origin, Text: text, wire: strings.TrimSpace(sb.String()), nstmt: n}
-	c.g = runGo(text)
-	// the statements the built modules refer to must be those of the text (by position): checked
-	// against this independent parse
-	if strings.HasPrefix(c.g.out, "ok") && c.g.problem == "" {
-		tops := 0
-		for _, f := range strings.Fields(c.g.out) {
-			if f == "M" || f == "S" {
-				tops++
-			}
-		}
-		if tops != len(ss) {
-			c.g.problem = fmt.Sprintf("%d top-level statements, %d modules added", len(ss), tops)
+	if len(ctxs) == 0 {
+		ctxs = []pctx{defaultCtx}
+	}
+	c := &tcase{Origin: origin, Text: text, wire: strings.TrimSpace(sb.String()), nstmt: n, ctx: ctxs[0], nctx: len(ctxs)}
+	c.g = runGo(text, ctxs[0], ss)
+	for _, x := range ctxs[1:] {
+		if g := runGo(text, x, ss); g != c.g && len(c.alts) < 4 {
+			c.alts = append(c.alts, altRes{x, g})
 		}
 	}
 	return c, nil
@@ -815,6 +1044,118 @@ func (g *rgen) file() []*gs {
 	return tops
 }
 
+// deviateKinds rewrites (with probability 1/2 each) the argument of the deviate statements of a random
+// tree to one of the four kinds of RFC 7950.
+func deviateKinds(r *rand.Rand, s *gs) {
+	if s.kw == "deviate" && r.Intn(2) == 0 {
+		s.hasArg, s.arg = true, []string{"not-supported", "not-supported", "add", "replace", "delete"}[r.Intn(5)]
+	}
+	for _, c := range s.subs {
+		deviateKinds(r, c)
+	}
+}
+
+// deviationShapes: modules (and submodules) with deviations made of every sequence of deviate kinds.
+func deviationShapes() [][]*gs {
+	leaf := func(n string) *gs {
+		return &gs{kw: "leaf", hasArg: true, arg: n, subs: []*gs{{kw: "type", hasArg: true, arg: "string"}}}
+	}
+	deviate := func(kind string, ext bool) *gs {
+		d := &gs{kw: "deviate", hasArg: true, arg: kind}
+		switch kind {
+		case "add":
+			d.subs = append(d.subs, &gs{kw: "units", hasArg: true, arg: "u"})
+		case "replace":
+			d.subs = append(d.subs, &gs{kw: "type", hasArg: true, arg: "int32"})
+		case "delete":
+			d.subs = append(d.subs, &gs{kw: "default", hasArg: true, arg: "d"})
+		}
+		if ext {
+			d.subs = append(d.subs, &gs{kw: "x:why", hasArg: true, arg: "later"})
+		}
+		return d
+	}
+	kinds := []string{"not-supported", "add", "replace", "delete", " not-supported ", "other"}
+	var seqs [][]string
+	var rec func(cur []string, n int)
+	rec = func(cur []string, n int) {
+		if len(cur) > 0 {
+			seqs = append(seqs, append([]string{}, cur...))
+		}
+		if n == 0 {
+			return
+		}
+		for _, k := range kinds {
+			rec(append(cur, k), n-1)
+		}
+	}
+	rec(nil, 3)
+	var out [][]*gs
+	wrap := func(top string, devs []*gs, trailing bool) {
+		var m *gs
+		if top == "module" {
+			m = &gs{kw: "module", hasArg: true, arg: "x", subs: []*gs{{kw: "namespace", hasArg: true, arg: "urn:x"}, {kw: "prefix", hasArg: true, arg: "x"}}}
+		} else {
+			m = &gs{kw: "submodule", hasArg: true, arg: "x", subs: []*gs{{kw: "belongs-to", hasArg: true, arg: "y", subs: []*gs{{kw: "prefix", hasArg: true, arg: "x"}}}}}
+		}
+		m.subs = append(m.subs, &gs{kw: "container", hasArg: true, arg: "c", subs: []*gs{leaf("a"), leaf("b"), leaf("d")}})
+		m.subs = append(m.subs, devs...)
+		if trailing {
+			m.subs = append(m.subs, leaf("z"), &gs{kw: "x:after", hasArg: true, arg: "w"})
+		}
+		out = append(out, []*gs{m})
+	}
+	deviation := func(target string, seq []string, ext, more bool) *gs {
+		d := &gs{kw: "deviation", hasArg: true, arg: target}
+		if more {
+			d.subs = append(d.subs, &gs{kw: "description", hasArg: true, arg: "mixed"})
+		}
+		for _, k := range seq {
+			d.subs = append(d.subs, deviate(k, ext))
+		}
+		if more {
+			d.subs = append(d.subs, &gs{kw: "x:note", hasArg: true, arg: "n"}, &gs{kw: "reference", hasArg: true, arg: "r"})
+		}
+		return d
+	}
+	// one deviation, every sequence of one to three deviates
+	for i, seq := range seqs {
+		wrap("module", []*gs{deviation("/c/a", seq, i%2 == 1, i%3 == 1)}, i%4 == 3)
+		if len(seq) <= 2 {
+			wrap("submodule", []*gs{deviation("/c/a", seq, i%2 == 0, i%3 == 0)}, i%4 == 1)
+		}
+	}
+	// two and three deviations, each with a sequence of at most two deviates of the three main kinds
+	var short [][]string
+	for _, seq := range seqs {
+		ok := len(seq) <= 2
+		for _, k := range seq {
+			if k != "not-supported" && k != "add" && k != "replace" {
+				ok = false
+			}
+		}
+		if ok {
+			short = append(short, seq)
+		}
+	}
+	n := 0
+	for _, s1 := range short {
+		for _, s2 := range short {
+			n++
+			wrap("module", []*gs{deviation("/c/a", s1, n%2 == 0, n%3 == 0), deviation("/c/b", s2, n%2 == 1, n%5 == 0)}, n%4 == 0)
+		}
+	}
+	for _, s1 := range short[:3] {
+		for _, s2 := range short[:3] {
+			for _, s3 := range short[:3] {
+				n++
+				wrap("module", []*gs{deviation("/c/a", s1, n%2 == 0, false), deviation("/c/b", s2, false, n%3 == 0), deviation("/c/d", s3, n%2 == 1, false)}, n%4 == 0)
+			}
+		}
+	}
+	return out
+}
+
 // ---------- main
 
 var corpus = []string{
@@ -883,6 +1224,19 @@ var corpus = []string{
 	"module m { namespace n; prefix p; } module @ { namespace n; prefix p; }",
 	"module @ { namespace n; } module m { namespace n; prefix p; }",
 	"module m { namespace n; prefix p; deviation /x { } }",
+	// deviate not-supported alone in its deviation, and mixed with other deviates (with an extension statement below it)
+	"module m { namespace urn:m; prefix m; container c { leaf a { type string; } leaf b { type string; } } deviation /c/a { deviate not-supported; } deviation /c/b { description mixed; deviate replace { type int32; } deviate not-supported { m:why later; } } }",
+	"module m { namespace urn:m; prefix m; deviation /c/a { deviate not-supported; } }",
+	"submodule s { belongs-to m { prefix m; } deviation /c/a { deviate not-supported; deviate not-supported; } deviation /c/b { deviate add { units u; } } }",
+	// the texts used as earlier calls in the contexts
+	priorA, priorB, priorC, priorR, priorL, priorT,
+	// texts that must be rejected whatever the set has seen before (same source name as an accepted earlier text)
+	"module b { namespace urn:b; prefix b; leaf y; }",
+	"module b { prefix b; }",
+	"module b { namespace urn:b; prefix b; frob z; }",
+	"module b { namespace urn:b; prefix b; leaf y { type string; type int8; } }",
+	"leaf y { type string; }",
+	"module b { namespace urn:b; prefix b; b:note n; leaf y { type string; } }",
 	"module m { namespace n; prefix p; typedef t { type string { length 1..2 { error-message e; p:x; } } } leaf-list l { type t; default a; default b; } }",
 }
 
@@ -895,6 +1249,7 @@ type runState struct {
 	randOk   int64
 	classes  map[string]int64
 	nontriv  int64
+	nctx     int64
 	examined int
 }
 
@@ -934,7 +1289,9 @@ func (st *runState) process(cases []*tcase) {
 		if i%(len(cases)/3+1) == 0 {
 			st.res.AddSample(map[string]any{"origin": c.Origin, "text": c.Text, "go": c.g.out, "model": ans[i]})
 		}
-		if ans[i] == c.g.out && c.g.problem == "" {
+		st.nctx += int64(c.nctx)
+		ctx, g, bad := c.pick(ans[i])
+		if !bad {
 			continue
 		}
 		if st.examined >= 50 {
@@ -948,47 +1305,80 @@ func (st *runState) process(cases []*tcase) {
 				lib.Fatal("driver: %v", err)
 			}
 		}
-		st.res.AddDisagreement(verdict(d, c, ans[i]))
+		st.res.AddDisagreement(verdict(d, c, ctx, g, ans[i]))
 	}
 }
 
-// verdict evaluates the specification on the Go output of one case.
-func verdict(d *lib.Driver, c *tcase, model string) lib.Disagreement {
-	dis := lib.Disagreement{Kind: "correspondence", Input: map[string]any{"origin": c.Origin, "text": c.Text}, Go: c.g.out, Model: model,
-		Replay: map[string]any{"text": c.Text, "origin": c.Origin}}
+// pick selects the context to report: the first one whose result differs from the model's answer (which
+// does not depend on the context) or whose Go-side comparison found something.
+func (c *tcase) pick(model string) (pctx, goResult, bool) {
+	if model != c.g.out || c.g.problem != "" {
+		return c.ctx, c.g, true
+	}
+	for _, a := range c.alts {
+		if model != a.g.out || a.g.problem != "" {
+			return a.ctx, a.g, true
+		}
+	}
+	return c.ctx, c.g, false
+}
+
+// verdict evaluates the specification on the Go output of one case in one context.
+func verdict(d *lib.Driver, c *tcase, ctx pctx, g goResult, model string) lib.Disagreement {
+	dis := lib.Disagreement{Kind: "correspondence", Input: map[string]any{"origin": c.Origin, "text": c.Text, "call": ctx.describe()}, Go: g.out, Model: model,
+		Replay: map[string]any{"text": c.Text, "origin": c.Origin, "ctx": ctx}}
+	how := ""
+	if ctx != defaultCtx {
+		how = " [" + ctx.brief()
+		if c.ctx == defaultCtx && c.g.out != g.out {
+			how += "; the plain call gives: " + short(c.g.out)
+		}
+		how += "]"
+	}
 	switch {
-	case c.g.crashed:
+	case g.crashed:
 		dis.Kind = "crash"
 		dis.SpecVerdict = "violates"
-		dis.What = "the builder panics: " + c.g.out
-	case strings.HasPrefix(c.g.out, "ok"):
-		mir, _ := d.Ask("spec.mirrors " + c.wire + " | " + c.g.out)
+		dis.What = "the builder panics" + how + ": " + g.out
+	case strings.HasPrefix(g.out, "ok"):
+		mir, _ := d.Ask("spec.mirrors " + c.wire + " | " + g.out)
 		acc, _ := d.Ask("spec.accepts " + c.wire)
+		sp := fmt.Sprintf(" (spec.mirrors=%s spec.accepts=%s)", mir, acc)
 		switch {
-		case c.g.problem != "":
+		case g.problem != "":
 			dis.SpecVerdict = "violates"
-			dis.What = "Go-side comparison of the AST with the statement tree: " + c.g.problem + fmt.Sprintf(" (spec.mirrors=%s spec.accepts=%s)", mir, acc)
-			if model == c.g.out {
+			dis.What = "Parse returned nil, but what the set holds for the text is not a one-to-one mirror of a statement tree that may be accepted" + how + ": " + g.problem + sp
+			if model == g.out {
 				dis.Kind = "spec"
 			}
 		case mir != "true":
 			dis.SpecVerdict = "violates"
-			dis.What = "the built AST does not mirror the statement tree (spec.mirrors=" + mir + ")"
+			dis.What = "Parse returned nil, but the built AST does not mirror the statement tree" + how + sp
 		case acc != "true":
 			dis.SpecVerdict = "violates"
-			dis.What = "a statement tree that must be rejected was built (spec.accepts=" + acc + ")"
+			dis.What = "a statement tree that must be rejected was accepted" + how + sp
 		default:
 			dis.SpecVerdict = "holds"
-			dis.What = "model and implementation differ; the Go output satisfies the specification"
+			dis.What = "model and implementation differ; the Go output satisfies the specification" + how
 		}
+	case g.problem != "":
+		dis.SpecVerdict = "violates"
+		dis.What = "a text that must be rejected was accepted" + how + ": " + g.problem
 	default:
 		dis.SpecVerdict = "holds"
-		dis.What = "model and implementation differ; the implementation reports an error, which the property permits"
-		if strings.HasPrefix(c.g.out, "err other") {
-			dis.What = "the implementation reports an error of a class the model does not know"
+		dis.What = "model and implementation differ; the implementation reports an error, which the property permits" + how
+		if strings.HasPrefix(g.out, "err other") {
+			dis.What = "the implementation reports an error of a class the model does not know" + how
 		}
 	}
 	return dis
+}
+
+func short(s string) string {
+	if len(s) > 60 {
+		return s[:60] + "…"
+	}
+	return s
 }
 
 func main() {
@@ -1004,13 +1394,58 @@ func main() {
 
 	// 1. corpus
 	var cases []*tcase
+	// texts are collected first and handed to the real code by 16 workers (worker w takes the texts
+	// w, w+16, …, and draws their contexts from its own seeded source)
+	type pending struct {
+		origin, text string
+		all          bool // every context (options x history x name), otherwise the plain call + 3 drawn ones
+	}
+	var pend []pending
+	allMode := true
+	allC := allCtxs()
 	addText := func(origin, text string) {
-		c, err := prepare(origin, text)
-		if err != nil {
-			res.Count("texts_rejected_by_the_generic_parser", 1)
-			return
+		pend = append(pend, pending{origin, text, allMode})
+	}
+	flush := func() {
+		const W = 16
+		out := make([]*tcase, len(pend))
+		var wg sync.WaitGroup
+		for w := 0; w < W; w++ {
+			wg.Add(1)
+			go func(w int) {
+				defer wg.Done()
+				r := f.Rand(2000 + w)
+				for i := w; i < len(pend); i += W {
+					ctxs := allC
+					if !pend[i].all {
+						ctxs = someCtxs(r, 3)
+					}
+					if strings.Contains(pend[i].text, "zz-prior-") {
+						// the texts of the earlier calls themselves: only in sets that have not parsed them
+						var keep []pctx
+						for _, x := range ctxs {
+							if x.Hist == 0 || x.Hist == 8 {
+								keep = append(keep, x)
+							}
+						}
+						ctxs = keep
+					}
+					c, err := prepare(pend[i].origin, pend[i].text, ctxs)
+					if err == nil {
+						out[i] = c
+					}
+				}
+			}(w)
 		}
-		cases = append(cases, c)
+		wg.Wait()
+		for _, c := range out {
+			if c == nil {
+				res.Count("texts_rejected_by_the_generic_parser", 1)
+				continue
+			}
+			cases = append(cases, c)
+		}
+		pend = nil
 	}
 	addTree := func(origin string, tops []*gs) {
 		text := renderAll(tops)
@@ -1028,7 +1463,20 @@ func main() {
 	for _, t := range corpus {
 		addText("corpus", t)
 	}
+	flush()
 	nCorpus := len(cases)
+
+	// 1b. deviation shapes: every sequence of up to three deviate statements of every kind in one
+	// deviation, pairs and triples of deviations, with and without extension statements below the
+	// deviates and other substatements around them, in a module and in a submodule; each in every context
+	nDev := 0
+	for _, tops := range deviationShapes() {
+		addTree(fmt.Sprintf("deviation shape #%d", nDev), tops)
+		nDev++
+	}
+	flush()
+	nDev = len(cases) - nCorpus
+	allMode = false
 
 	// 2. exhaustive triples
 	allKw := append([]string{"module"}, kwOrder...)
@@ -1175,7 +1623,8 @@ func main() {
 		second.arg = "x2" // distinct module names: collisions are the registry's business (C13)
 		addTree("module then top "+K, []*gs{minimal("module", 0), second})
 	}
-	nExh := len(cases) - nCorpus
+	flush()
+	nExh := len(cases) - nCorpus - nDev
 	st.process(cases)
 	cases = nil
 
@@ -1187,8 +1636,10 @@ func main() {
 	shards := 16
 	per := total / shards
 	gens := make([]*rgen, shards)
+	ctxR := make([]*rand.Rand, shards) // contexts and deviate kinds: a source of their own, the trees stay as they were
 	for sh := range gens {
 		gens[sh] = &rgen{r: f.Rand(sh), allKw: allKw, maxDep: 4}
+		ctxR[sh] = f.Rand(1000 + sh)
 	}
 	var sizes int64
 	// rounds of at most 4000 cases per shard keep memory flat in the thorough tier
@@ -1206,8 +1657,11 @@ func main() {
 				g := gens[sh]
 				for i := 0; i < n; i++ {
 					tops := g.file()
+					for _, t := range tops {
+						deviateKinds(ctxR[sh], t)
+					}
 					text := renderAll(tops)
-					c, err := prepare(fmt.Sprintf("random shard %d #%d", sh, done+i), text)
+					c, err := prepare(fmt.Sprintf("random shard %d #%d", sh, done+i), text, someCtxs(ctxR[sh], 2))
 					if err != nil {
 						lib.Fatal("generated text does not parse (%v):\n%s", err, text)
 					}
@@ -1233,9 +1687,16 @@ func main() {
 		"(and submodule) context, child keywords = every keyword of the table + meta-names Name/Statement/Parent/Ext + unknown + " +
 		"prefixed (one colon) + two-colon keywords; every such keyword as a top-level statement alone and after a valid module; " +
 		"for every parent keyword and every field k of its node type an extension statement <pfx>:k with k absent / before k / after k; " +
-		"every keyword with arguments that have blanks, tabs or line feeds at the edges, all-blank, empty and absent arguments. " +
-		"Random part: seeded random trees to depth 4."
+		"every keyword with arguments that have blanks, tabs or line feeds at the edges, all-blank, empty and absent arguments; " +
+		"deviations with every sequence of up to three deviate kinds. Random part: seeded random trees to depth 4. " +
+		"Every text is handed to Modules.Parse by the plain call (fresh set, default options, name t.yang) and in further contexts that must not " +
+		"influence the AST (ParseOptions set before the call, earlier accepted/rejected Parse calls and Process on the same set, the same source " +
+		"name reused, other source names); in each context the modules the set holds for the text afterwards are read back and compared."
 	res.Distribution["corpus_cases"] = nCorpus
+	res.Distribution["deviation_shape_cases"] = nDev
+	res.Distribution["parse_calls_in_context"] = st.nctx
+	res.Distribution["contexts"] = fmt.Sprintf("corpus and deviation shapes: all %d combinations of 8 option settings x %d histories of earlier calls on the same Modules value x 2 source names; "+
+		"exhaustive cases: the plain call + 3 drawn contexts; random cases: the plain call + 2 drawn contexts (3 source names, the empty one among them)", len(allC), len(histories))
 	res.Distribution["exhaustive_cases"] = nExh
 	res.Distribution["triples"] = triples
 	res.Distribution["look_alike_cases"] = lookAlikes
@@ -1254,8 +1715,8 @@ func main() {
 	}
 	res.Distribution["go_error_classes"] = cl
 	res.Write(f.Out)
-	fmt.Printf("C03: %d cases (%d corpus, %d exhaustive, %d random), go ok=%d err=%d %v, disagreements=%d\n",
-		res.Evaluations, nCorpus, nExh, per*shards, st.ok, st.errs, st.classes, len(res.Disagreements))
+	fmt.Printf("C03: %d cases (%d corpus, %d deviation shapes, %d exhaustive, %d random; %d Parse calls in context), go ok=%d err=%d %v, disagreements=%d\n",
+		res.Evaluations, nCorpus, nDev, nExh, per*shards, st.nctx, st.ok, st.errs, st.classes, len(res.Disagreements))
 }
 
 func replay(f *lib.Flags) {
@@ -1268,6 +1729,7 @@ func replay(f *lib.Flags) {
 			Replay struct {
 				Text   string `json:"text"`
 				Origin string `json:"origin"`
+				Ctx    *pctx  `json:"ctx"`
 			} `json:"replay"`
 		} `json:"disagreement"`
 	}
@@ -1275,7 +1737,12 @@ func replay(f *lib.Flags) {
 		lib.Fatal("%v", err)
 	}
 	text := p.Disagreement.Replay.Text
-	c, err := prepare(p.Disagreement.Replay.Origin, text)
+	ctx := defaultCtx
+	if p.Disagreement.Replay.Ctx != nil {
+		ctx = *p.Disagreement.Replay.Ctx
+	}
+	fmt.Printf("call: %s\n", ctx.describe())
+	c, err := prepare(p.Disagreement.Replay.Origin, text, []pctx{ctx})
 	if err != nil {
 		fmt.Printf("input:\n%s\nthe generic parser rejects the text: %v\n", text, err)
 		os.Exit(1)
@@ -1290,7 +1757,7 @@ func replay(f *lib.Flags) {
 		fmt.Printf("input:\n%s\ngo:    %s\nmodel: %s\nmodel and implementation agree; the Go-side structural comparison finds nothing\n", text, c.g.out, m)
 		return
 	}
-	v := verdict(d, c, m)
+	v := verdict(d, c, ctx, c.g, m)
 	fmt.Printf("input:\n%s\ngo:    %s\nmodel: %s\nspec:  %s (%s)\n", text, c.g.out, m, v.SpecVerdict, v.What)
 	if c.g.problem != "" {
 		fmt.Printf("go-side structural comparison: %s\n", c.g.problem)
